@@ -57,7 +57,7 @@ def run_one(e, repo):
         props = [e["property"]] + list(e.get("also", []))
         results = {}
         for prop in props:
-            c = subprocess.run([os.path.join(VERIF, "bin", "uxcheck"), "-prop", prop, "-tier", "quick", "-repo", dst, "-verif", VERIF, "-no-evidence"],
+            c = subprocess.run([os.environ.get("UXBIN", os.path.join(VERIF, "bin", "uxcheck")), "-prop", prop, "-tier", "quick", "-repo", dst, "-verif", VERIF, "-no-evidence"],
                                env=ENV, capture_output=True, text=True)
             results[prop] = (c.returncode, c.stdout + c.stderr)
         rc, out = results[e["property"]]
